@@ -91,7 +91,9 @@ def consume_attribute_with_unquoted_value(scanner: BackwardScanner):
             if not stack or stack.pop() != BRACE_PAIRS[ch]:
                 # Unexpected open bracket
                 break
-        elif not is_unquoted_value(ch):
+        elif not is_unquoted_value(ch) or (not stack and ch in (Chars.AngleLeft, Chars.AngleRight)):
+            # Angle brackets cannot be a part of unquoted value (outside of
+            # expressions like `{a > b}`): it’s a tag boundary
             break
         scanner.pos -= 1
 
